@@ -71,9 +71,9 @@ func (x *Exec) callLibrary(s *State, fn *types.Func, recv *Term, args []*Term, c
 		}
 		return []*Term{Mk(min.S, dx, dy)}, true
 	case "(image.Image).Bounds", "(image/draw.Image).Bounds", "(golang.org/x/image/draw.Image).Bounds":
-		libUsed[full] = "pure query: a function of the image value and the heap epoch"
+		libUsed[full] = "pure query: a function of the image value (an image's bounds never change after its creation)"
 		t := x.typeOf(call)
-		v := x.uf("ext_Bounds", x.eng.tm.sortOf(t), recv, x.epochOf(s))
+		v := x.uf("ext_Bounds", x.eng.tm.sortOf(t), recv)
 		return []*Term{v}, true
 	case "(*sync.Pool).Get":
 		// a recycled or new object: a reference that no live structure points to (no use after Put: assumed),
